@@ -55,6 +55,14 @@ CLAIMS['C10'] = dict(
    text="Theorem (Props/C10.v) over the WHOLE finite cross product of the CLI value lists (7 OS x 23 kinds x 10 image types x 4 wrap options, all regenerated from cli.rs / img/mod.rs / names.rs / mkdsk.rs / dot2mg.rs / dpb.rs / bpb.rs): every tuple the decision model accepts has the parameters its file system needs (DPB, BPB, 13/16-sector capacity, block count). Tie and search are exhaustive: the real binary is run on every one of the 6440 tuples; accept/refuse must equal the model's decision; every accepted file is reopened (file system, empty tree, free space vs capacity, geometry) and must take and return a first file; every refusal must be an error return (no panic, no signal) that leaves no file. Volume names/numbers at the edges of their ranges, the boot flag and a missing volume are exercised on representative tuples.",
    technique="Coq proof by exhaustive evaluation over the generated product + exhaustive run of the real CLI (translation-validated decision table)",
    design_ref='DESIGN.md section 5 C10')
+CLAIMS['C11'] = dict(
+   text="Theorems (Props/C11.v): for every handler path in which nothing fallible follows the image write and every choice of the failing step, a non-zero exit means no write completed; every image-writing call site of main.rs / lib.rs / commands/*.rs (list regenerated from the sources on every run) is in tail position; the seven read-only handlers contain no file-writing call. Impl side: the real binary is run on populated images of every file system and several containers with ~27 failing invocations each (bad arguments, unknown paths, duplicates, disk full, malformed stdin for every item type, block/sector range errors, metadata errors), mput batches whose n-th element fails, and every read-only command; sha256 of the image before and after. Atomicity of the final write itself is OS behaviour and outside the claim.",
+   technique="Coq proof over the generated write-site list + semantic write-last lemma + real-binary hash oracle",
+   design_ref='DESIGN.md section 5 C11')
+CLAIMS['C20'] = dict(
+   text="Theorems (Props/C20.v): an output rendered from sorted keys is identical for every permutation of the entries; a map built by inserting distinct keys is independent of insertion order; every hash-container iteration site found in the sources (list regenerated on every run) is classified and none emits in iteration order. Impl side: the same history is built from scratch, and every query / language operation repeated, in fresh processes (fresh hash seeds) under a fixed wall clock (LD_PRELOAD shim, no change to a2kit) and compared byte for byte: image bytes, catalog, tree, stat, geometry, glob, get (any/txt/rec/meta/block), mget, tokenize, detokenize, minify, renumber, verify, asm, dasm, pack. Language-server outputs are outside the property's list and not compared.",
+   technique="Coq proof (order-independence lemmas, generated site classification) + repeated fresh-process byte comparison with fixed clock",
+   design_ref='DESIGN.md section 5 C20')
 PLANNED = {f'C{i:02d}': 'check not built yet in this round (planned; see DESIGN.md section 10)' for i in range(1, 21)}
 
 def main():
